@@ -161,7 +161,11 @@ class HashTable:
             raise ValueError(
                 f"Could not add hash tables with differing keys ({self._keys, other._keys})"
             )
-        return HashTable(self._keys, self._values + other._values)
+        values = self._values + other._values
+        value_dtype = None
+        if isinstance(values, Number):  # both tables hold one common value: the sum has the promoted type of the two
+            value_dtype = np.result_type(_like_dtype(self, None), _like_dtype(other, None))
+        return HashTable(self._keys, values, value_dtype=value_dtype)
 
     def __iadd__(self, other):
         if isinstance(other, Number):
@@ -198,16 +202,23 @@ class HashTable:
         return dict(zip(self._keys.ravel(), self._values.ravel()))
 
 
+def _like_dtype(hash_table, dtype):
+    if dtype is not None:
+        return dtype
+    if hash_table._value_dtype is not None:
+        return hash_table._value_dtype
+    values = hash_table._values  # a table built with one common value: that value's type (also after it was spread out per key)
+    return values.dtype if hasattr(values, "dtype") else np.asarray(values).dtype
+
+
 @implements(np.zeros_like)
 def zeros_like(hash_table, dtype=None):
-    dtype = hash_table._value_dtype if dtype is None else dtype
-    return hash_table.__class__(hash_table._keys, 0, value_dtype=dtype)
+    return hash_table.__class__(hash_table._keys, 0, value_dtype=_like_dtype(hash_table, dtype))
 
 
 @implements(np.ones_like)
 def ones_like(hash_table, dtype=None, shape=None):
-    dtype = hash_table._value_dtype if dtype is None else dtype
-    return hash_table.__class__(hash_table._keys, 1, value_dtype=dtype)
+    return hash_table.__class__(hash_table._keys, 1, value_dtype=_like_dtype(hash_table, dtype))
 
 
 class Counter(HashTable):
